@@ -572,6 +572,11 @@ type Outcome struct {
 	Val    interface{}
 	CBs    []CB
 	After  int // callbacks after the injected error, same level
+	// Err is the error value itself (never compared); ErrText is its message as the caller saw it
+	// right after the call returned - filled in and compared by C18 only, where "the same result
+	// as when run one after another" includes what the error says.
+	Err     error
+	ErrText string
 }
 
 func (o Outcome) brief() string {
@@ -638,6 +643,7 @@ func (e *hEnv) traverse(kind string, doc []byte) (out Outcome) {
 	}
 	out.OK = err == nil
 	out.P = p
+	out.Err = err
 	if err != nil && e.thrown >= 0 && e.errs != nil && sameErr(err, e.errs[e.thrown]) {
 		out.ErrIdx = e.thrown
 	}
@@ -694,6 +700,9 @@ func diffOutcome(a, b Outcome) string {
 	}
 	if !eqVal(a.Val, b.Val) {
 		return fmt.Sprintf("value differs: %s vs %s", descVal(a.Val), descVal(b.Val))
+	}
+	if a.ErrText != b.ErrText {
+		return fmt.Sprintf("error text differs: %q vs %q", a.ErrText, b.ErrText)
 	}
 	return diffCBs(a.CBs, b.CBs)
 }
